@@ -107,19 +107,19 @@ Proof.
 Qed.
 
 (* ---------- the statement at a position ---------- *)
-Inductive node_at : stmt -> list N -> Z -> name -> Prop :=
-| NA_leaf k t a : hidden k t = false -> node_at (SLeaf k t a) [] (leaf_code k t) t
-| NA_block k t a body : node_at (SBlock k t a body) [] (block_code k) t
+Inductive node_at : stmt -> list N -> Z -> label -> Prop :=
+| NA_leaf k t a : hidden k t = false -> node_at (SLeaf k t a) [] (leaf_code k t) (leaf_label k t)
+| NA_block k t a body : node_at (SBlock k t a body) [] (block_code k) (t, None)
 | NA_child k t a body i c r cd tx :
     nth_error body i = Some c -> node_at c r cd tx -> node_at (SBlock k t a body) (N.of_nat i :: r) cd tx
 | NA_choice a chs i ch :
-    nth_error chs i = Some ch -> node_at (SAlt a chs) [N.of_nat i] choice_code (fst ch)
+    nth_error chs i = Some ch -> node_at (SAlt a chs) [N.of_nat i] choice_code (fst ch, None)
 | NA_choice_child a chs i ch j c r cd tx :
     nth_error chs i = Some ch -> nth_error (snd ch) j = Some c -> node_at c r cd tx ->
     node_at (SAlt a chs) (N.of_nat i :: N.of_nat j :: r) cd tx.
 
 (* the statement at position p of an endpoint's statement list *)
-Definition forest_at (l:list stmt) (p:list N) (cd:Z) (tx:name) : Prop :=
+Definition forest_at (l:list stmt) (p:list N) (cd:Z) (tx:label) : Prop :=
   exists i s r, p = N.of_nat i :: r /\ nth_error l i = Some s /\ node_at s r cd tx.
 
 Lemma Forall_nth {A} (P:A -> Prop) l k x : Forall P l -> nth_error l k = Some x -> P x.
@@ -221,7 +221,7 @@ Proof.
   - rewrite row_paths_app, row_paths_smeta, app_nil_r, row_paths_concat_mapi.
     assert (Hchoice : forall i (ch:name * list stmt), nth_error chs i = Some ch ->
               forall y, In y (row_paths (concat (mapi_from (fun j c => path_items c ((idx ++ [(0 + N.of_nat i)%N]) ++ [j])) (snd ch) 0%N)
-                                           ++ [IRow (idx ++ [(0 + N.of_nat i)%N]) choice_code (fst ch)])) ->
+                                           ++ [IRow (idx ++ [(0 + N.of_nat i)%N]) choice_code (fst ch, None)])) ->
               exists r, y = idx ++ N.of_nat i :: r).
     { intros i ch Hn y Hy. rewrite row_paths_app in Hy. apply in_app_iff in Hy. rewrite N.add_0_l in Hy. destruct Hy as [Hy|Hy].
       - apply in_row_paths in Hy. destruct Hy as (it & Hi & <-). apply In_concat_mapi in Hi.
